@@ -790,6 +790,22 @@ func (rw *rewriter) replaceExpr(e ast.Expr) ast.Expr {
 			return rw.simrt("Recv", x.X)
 		}
 	case *ast.CallExpr:
+		if se, ok := x.Fun.(*ast.SelectorExpr); ok {
+			if pk, ok := se.X.(*ast.Ident); ok {
+				if pn, ok := rw.info.Uses[pk].(*types.PkgName); ok && pn.Imported().Path() == "reflect" && se.Sel.Name == "Select" {
+					// channel operations through package reflect
+					return rw.simrt("ReflectSelect", x.Args...)
+				}
+			}
+			if sel := rw.info.Selections[se]; sel != nil && sel.Kind() == types.MethodVal {
+				if named, ok := sel.Recv().(*types.Named); ok && named.Obj().Pkg() != nil && named.Obj().Pkg().Path() == "reflect" && named.Obj().Name() == "Value" {
+					switch se.Sel.Name {
+					case "Send", "Recv", "TrySend", "TryRecv", "Close":
+						die("%s: channel operation through reflect.Value.%s is not supported by the instrumentation (%s)", rw.file, se.Sel.Name, rw.fset.Position(x.Pos()))
+					}
+				}
+			}
+		}
 		if fn, ok := x.Fun.(*ast.Ident); ok && len(x.Args) == 1 {
 			if _, isBuiltin := rw.info.Uses[fn].(*types.Builtin); isBuiltin {
 				switch fn.Name {
